@@ -46,7 +46,8 @@ def mk_rdms(seed=0, n_rdm=4, n_cond=6):
     return RDMs(rs.rand(n_rdm, n_cond * (n_cond - 1) // 2) + .1, dissimilarity_measure='euclidean',
                 descriptors={'sess': 1, 'note': 'x', 'prec': np.eye(2)},
                 rdm_descriptors={'subj': [f's{(i * 3) % n_rdm}{i}' for i in range(n_rdm)], 'grp': [i % 2 for i in range(n_rdm)]},
-                pattern_descriptors={'cond': [f'c{(i * 5) % n_cond}{i}' for i in range(n_cond)], 'cat': [i % 2 for i in range(n_cond)]})
+                pattern_descriptors={'cond': [f'c{(i * 5) % n_cond}{i}' for i in range(n_cond)], 'cat': [i % 2 for i in range(n_cond)],
+                                     'num': np.arange(n_cond) * 2})
 
 
 def mk_ds(seed=0, n_obs=12, n_ch=4):
@@ -135,7 +136,7 @@ def resolve(qual, pname, seed, tmp, sig):
     if n in ('by',):
         return 'cond'
     if n in ('pattern_descriptor',):
-        return 'cond'
+        return 'cond' if seed % 2 else 'num'      # list-valued and array-valued descriptors
     if n in ('value',):
         return ['c00', 'c51', 'c42', 'c33'] if rdm_ctx else 0
     if n in ('residuals',):
@@ -521,6 +522,9 @@ def bind(c, tmp):
             args[p.name] = v
         elif p.name in KW:
             args[p.name] = KW[p.name]
+        elif p.name == 'pattern_descriptor' and c['seed'] % 2 == 0 and c['owner'] is None and any(
+                q.name in ('rdms', 'data') for q in params):
+            args[p.name] = 'num'          # an array-valued grouping descriptor instead of the default 'index' list
         elif p.name == 'file_type' and nm == 'save':
             args[p.name] = 'pkl'
     if nm == 'concat' and c['owner'] is None:
